@@ -93,10 +93,10 @@ func (g *gen) value(t types.Type) string {
 		}
 		el := t.Underlying().(*types.Slice).Elem()
 		if tr.KindOf(el) == tr.KTok {
-			return fmt.Sprintf("func() %s { n := gfR.length(); s := make(%s, n, n+int(gfR.next()%%3)); for i := range s { s[i] = gfR.tok() }; return s }()", g.ty(t), g.ty(t))
+			return fmt.Sprintf("func() %s { n := gfR.length(); s := make(%s, n, n+gfR.spare()); for i := range s { s[i] = gfR.tok() }; return s }()", g.ty(t), g.ty(t))
 		}
 		// (sometimes with spare capacity: code that reslices beyond len behaves differently then)
-		return fmt.Sprintf("func() %s { n := gfR.length(); s := make(%s, n, n+int(gfR.next()%%3)); sorted := gfR.next()%%5 < 2; for i := range s { s[i] = %s }; if sorted { sort.Slice(s, func(i, j int) bool { return s[i] < s[j] }) }; return s }()",
+		return fmt.Sprintf("func() %s { n := gfR.length(); s := make(%s, n, n+gfR.spare()); sorted := gfR.next()%%5 < 2; for i := range s { s[i] = %s }; if sorted { sort.Slice(s, func(i, j int) bool { return s[i] < s[j] }) }; return s }()",
 			g.ty(t), g.ty(t), g.value(el))
 	}
 	return ""
@@ -195,6 +195,7 @@ func main() {
 	n := flag.Int("n", 100, "cases per function")
 	seed := flag.Int64("seed", 1, "seed")
 	fuel := flag.Int("fuel", 2000, "fuel given to the Gallina definitions")
+	spare := flag.Bool("sparecap", false, "give input slices spare capacity (finds code that reslices beyond len: Panic in the translation, not in Go)")
 	flag.Parse()
 	a := flag.Args()
 	if len(a) < 7 {
@@ -424,6 +425,9 @@ func main() {
 		fmt.Fprintf(&errVals, "%s, ", q)
 	}
 	support := strings.Replace(goSupport, "SEED", strconv.FormatInt(*seed, 10), 1)
+	if *spare {
+		support = strings.Replace(support, "const gfSpare = 1", "const gfSpare = 3", 1)
+	}
 	support = strings.Replace(support, "/*ERRCASES*/", errCases.String(), 1)
 	support = strings.Replace(support, "/*ERRVALS*/", errVals.String(), 1)
 	var src strings.Builder
@@ -702,6 +706,11 @@ func (r *gfRand) smallInt(signed bool) uint64 {
 	}
 	return v
 }
+
+// spare capacity of the slices handed to the function (0 unless -sparecap)
+const gfSpare = 1
+
+func (r *gfRand) spare() int { return int(r.next() % gfSpare) }
 
 func (r *gfRand) length() int {
 	switch c := r.next() % 10; {
